@@ -337,16 +337,12 @@ func verifC05PerturbIdentity(t *rapid.T, e EntryIdentity, r Record, field string
 			r.Index = ni
 		}
 	case "PreviousTerm":
-		if e.PreviousIndex == 0 {
-			return e, r, false // genesis predecessor is fixed to zero
-		}
+		// at genesis (PreviousIndex 0) the sealed predecessor is all zero; an
+		// identity naming any other predecessor term is not the sealed one
 		p.PreviousTerm = verifC05OtherU64(t, e.PreviousTerm, true, "pPrevTerm")
 	case "CommandID":
 		p.CommandID = CommandID(verifC05Other32(t, e.CommandID, "pCmd"))
 	case "PreviousDigest":
-		if e.PreviousIndex == 0 {
-			return e, r, false
-		}
 		p.PreviousDigest = EntryDigest(verifC05Other32(t, e.PreviousDigest, "pPrevDigest"))
 	case "Digest":
 		p.Digest = EntryDigest(verifC05Other32(t, e.Digest, "pDigest"))
